@@ -523,3 +523,218 @@ def wire_any(rng, c, depth):
             out += wire_any(rng, ec, depth - 1)
         return out
     raise ValueError(c)
+
+
+# ------------------------------------------------------------------ wire trees (generation only)
+# wire value: ('x', code, bytes) scalar/string payload already encoded
+#             ('st', [(code, fid, w)], raw) | ('mp', kc, vc, [(w, w)]) | ('ls', code(14/15), ec, [w])
+
+WT = {'bool': 2, 'i8': 3, 'double': 4, 'i16': 6, 'i32': 8, 'i64': 10, 'enum': 8, 'string': 11, 'binary': 11,
+      'struct': 12, 'map': 13, 'set': 14, 'list': 15}
+WBYTES = {'bool': 1, 'i8': 1, 'i16': 2, 'i32': 4, 'i64': 8, 'double': 8}
+
+
+def wt_of(t):
+    return wt_of(t[1]) if t[0] == 'ptr' else WT[t[0]]
+
+
+def wcode(w):
+    return {'x': None, 'st': 12, 'mp': 13}.get(w[0], None) if w[0] != 'x' and w[0] != 'ls' else (w[1])
+
+
+def go_equal(t, a, b):
+    k = t[0]
+    if k == 'double':
+        x, y = a[1], b[1]
+        if dbl_is_nan(x) or dbl_is_nan(y):
+            return False
+        if x & ((1 << 63) - 1) == 0 and y & ((1 << 63) - 1) == 0:
+            return True
+        return x == y
+    if k in SCALARS:
+        return a[1] == b[1]
+    if k in ('string', 'binary'):
+        ba = a[1] if a[0] == 'b' else b''
+        bb = b[1] if b[0] == 'b' else b''
+        return ba == bb
+    return False
+
+
+def is_nil(v):
+    return v[0] in ('ln', 'mn', 'pn', 'bn')
+
+
+def denote_py(u, t, v):
+    k = t[0]
+    if k == 'ptr':
+        if v[0] == 'pn':
+            return ('st', [], b'')
+        return denote_py(u, t[1], v[1])
+    if k == 'enum':
+        return ('x', 8, (v[1] & 0xffffffff).to_bytes(4, 'big'))
+    if k in WBYTES:
+        return ('x', WT[k], (v[1] & ((1 << (8 * WBYTES[k])) - 1)).to_bytes(WBYTES[k], 'big'))
+    if k in ('string', 'binary'):
+        bs = v[1] if v[0] == 'b' else b''
+        return ('x', 11, len(bs).to_bytes(4, 'big') + bs)
+    if k in ('list', 'set'):
+        es = [] if v[0] == 'ln' else [denote_py(u, t[1], e) for e in v[1]]
+        return ('ls', WT[k], wt_of(t[1]), es)
+    if k == 'map':
+        es = [] if v[0] == 'mn' else [(denote_py(u, t[1], a), denote_py(u, t[2], b)) for a, b in v[1]]
+        return ('mp', wt_of(t[1]), wt_of(t[2]), es)
+    if k == 'struct':
+        s = u.by_name[t[1]]
+        ex = u.fresh(s)[2] if s.init is not None else None
+        fs = []
+        for i, (f, fv) in enumerate(zip(s.sorted_fields(), v[2])):
+            ft = f.ty
+            if f.req == 'optional':
+                if (ft[0] == 'ptr' or ft[0] == 'binary' or ft[0] in ('list', 'set', 'map')) and is_nil(fv):
+                    continue
+                if ft[0] != 'ptr' and ex is not None:
+                    d = ex[i]
+                    if go_equal(ft, d, fv):
+                        continue
+            fs.append((wt_of(ft), f.fid, denote_py(u, ft, fv)))
+        return ('st', fs, v[1] if s.holder else b'')
+    raise ValueError(t)
+
+
+def put_py(w, marks=None, base=0):
+    """bytes of a wire tree; marks (optional list) receives (offset, kind) of structural bytes:
+    kind in 'type' 'id' 'len' 'etype' 'stop'"""
+    out = bytearray()
+
+    def mark(kind):
+        if marks is not None:
+            marks.append((base + len(out), kind))
+
+    def go(w):
+        if w[0] == 'x':
+            if w[1] == 11:
+                mark('len')
+            out.extend(w[2])
+        elif w[0] == 'st':
+            for (c, fid, fw) in w[1]:
+                mark('type')
+                out.append(c & 0xff)
+                mark('id')
+                out.extend((fid & 0xffff).to_bytes(2, 'big'))
+                go(fw)
+            out.extend(w[2])
+            mark('stop')
+            out.append(0)
+        elif w[0] == 'mp':
+            mark('etype')
+            out.append(w[1] & 0xff)
+            mark('etype')
+            out.append(w[2] & 0xff)
+            mark('len')
+            out.extend(len(w[3]).to_bytes(4, 'big'))
+            for a, b in w[3]:
+                go(a)
+                go(b)
+        elif w[0] == 'ls':
+            mark('etype')
+            out.append(w[2] & 0xff)
+            mark('len')
+            out.extend(len(w[3]).to_bytes(4, 'big'))
+            for e in w[3]:
+                go(e)
+        elif w[0] == 'raw':
+            out.extend(w[1])
+        else:
+            raise ValueError(w)
+    go(w)
+    return bytes(out)
+
+
+def wire_code(w):
+    if w[0] == 'x':
+        return w[1]
+    if w[0] == 'st':
+        return 12
+    if w[0] == 'mp':
+        return 13
+    if w[0] == 'ls':
+        return w[1]
+    raise ValueError(w)
+
+
+def wire_tree_any(rng, c, depth):
+    """random well-formed wire tree with code c"""
+    if c in (2, 3, 4, 6, 8, 10, 11):
+        return ('x', c, wire_any(rng, c, 0))
+    codes = [2, 3, 4, 6, 8, 10, 11] + ([12, 13, 14, 15] if depth > 0 else [])
+    if c == 12:
+        return ('st', [(fc, rng.below(1 << 16), wire_tree_any(rng, fc, depth - 1))
+                       for fc in [rng.pick(codes) for _ in range(rng.below(3))]], b'')
+    if c == 13:
+        kc, vc = rng.pick([2, 3, 6, 8, 10, 4, 11]), rng.pick(codes)
+        return ('mp', kc, vc, [(wire_tree_any(rng, kc, depth - 1), wire_tree_any(rng, vc, depth - 1)) for _ in range(rng.below(3))])
+    ec = rng.pick(codes)
+    return ('ls', c, ec, [wire_tree_any(rng, ec, depth - 1) for _ in range(rng.below(3))])
+
+
+def mutate_tree(rng, w, unknown_ids, level=0):
+    """schema-evolution style changes that keep the message well-formed:
+    permute / duplicate / drop / retype / renumber fields, insert unknown fields"""
+    if w[0] == 'st':
+        fs = [(c, fid, mutate_tree(rng, fw, unknown_ids, level + 1)) for (c, fid, fw) in w[1]]
+        r = rng.below(8)
+        if r == 0 and len(fs) > 1:
+            for j in range(len(fs) - 1, 0, -1):
+                k = rng.below(j + 1)
+                fs[j], fs[k] = fs[k], fs[j]
+        elif r == 1 and fs:
+            fs.insert(rng.below(len(fs) + 1), rng.pick(fs))          # duplicate (later occurrence wins)
+        elif r == 2 and fs:
+            fs.pop(rng.below(len(fs)))                                 # writer did not know / omitted it
+        elif r == 3 and fs:
+            i = rng.below(len(fs))                                     # retyped: same id, other wire type
+            c = rng.pick([2, 3, 4, 6, 8, 10, 11, 12, 13, 14, 15])
+            fs[i] = (c, fs[i][1], wire_tree_any(rng, c, 2))
+        elif r == 4 and fs:
+            i = rng.below(len(fs))                                     # renumbered
+            fs[i] = (fs[i][0], rng.pick(unknown_ids), fs[i][2])
+        if rng.chance(1, 3):
+            for _ in range(1 + rng.below(2)):                          # unknown fields anywhere
+                c = rng.pick([2, 3, 4, 6, 8, 10, 11, 12, 13, 14, 15])
+                fs.insert(rng.below(len(fs) + 1), (c, rng.pick(unknown_ids), wire_tree_any(rng, c, 2)))
+        return ('st', fs, w[2])
+    if w[0] == 'mp':
+        return ('mp', w[1], w[2], [(mutate_tree(rng, a, unknown_ids, level + 1), mutate_tree(rng, b, unknown_ids, level + 1)) for a, b in w[3]])
+    if w[0] == 'ls':
+        return ('ls', w[1], w[2], [mutate_tree(rng, e, unknown_ids, level + 1) for e in w[3]])
+    return w
+
+
+def corrupt(rng, msg, marks):
+    """malformed variants of a message: returns list of (label, bytes)"""
+    out = []
+    n = len(msg)
+    # prefixes: all for short messages, structural + random cut points otherwise
+    cuts = set(range(n)) if n <= 48 else set([0, 1, 2, 3, n - 1] + [o for o, _ in marks[:24]] + [o + 1 for o, _ in marks[:24]] + [rng.below(n) for _ in range(8)])
+    for c in sorted(cuts):
+        if 0 <= c < n:
+            out.append(('prefix', msg[:c]))
+    for (o, kind) in marks[:40]:
+        if kind == 'len' and o + 4 <= n:
+            rem = n - (o + 4)
+            for val in (0xffffffff, 0x7fffffff, 0x80000000, rem, rem + 1, max(rem - 1, 0), 0x00ffffff, 1 << 20):
+                out.append(('len', msg[:o] + (val & 0xffffffff).to_bytes(4, 'big') + msg[o + 4:]))
+        elif kind in ('type', 'etype') and o < n:
+            for val in (0, 1, 2, 3, 4, 5, 6, 8, 10, 11, 12, 13, 14, 15, 16, 0x7f, 0x80, 0xff):
+                if val != msg[o]:
+                    out.append((kind, msg[:o] + bytes([val]) + msg[o + 1:]))
+        elif kind == 'id' and o + 2 <= n:
+            for val in (0, 1, 0xffff, rng.below(1 << 16)):
+                out.append(('id', msg[:o] + val.to_bytes(2, 'big') + msg[o + 2:]))
+        elif kind == 'stop' and o < n:
+            out.append(('stop', msg[:o] + bytes([rng.pick([1, 2, 8, 11, 12, 15])]) + msg[o + 1:]))
+    for _ in range(6):
+        if n:
+            i = rng.below(n)
+            out.append(('flip', msg[:i] + bytes([msg[i] ^ (1 << rng.below(8))]) + msg[i + 1:]))
+    return out
